@@ -7,6 +7,13 @@ from .runtime_common import RUNTIME, RUNTIME_ASSUMPTIONS
 def run(tier):
     pr = PropertyRun('C09', tier)
     run_contracts_sel(pr, RUNTIME, tier, 'C09')
+    # evaluation sites outside the runtime: the data helpers (an expression per row) and arraySort's comparison callbacks
+    from contracts.data_c import FILTER_DATA, ADD_CALCULATED_FIELD
+    from contracts.lib_cmp import ARRAY_SORT_CUSTOM
+    run_contracts_sel(pr, [FILTER_DATA, ADD_CALCULATED_FIELD], tier, 'C09')
+    run_contracts_sel(pr, [ARRAY_SORT_CUSTOM], tier, 'C09')
+    pr.not_proved.append('data.join_data, data.aggregate_data: evaluation sites not under contract (join_data evaluates the join '
+                         'expressions per row; the carried-back count was repaired in 0dca9b5 but is not proved here)')
     from .C17 import include_bounded
     include_bounded(pr, 'C09')
     pr.assumptions += RUNTIME_ASSUMPTIONS + [
